@@ -59,6 +59,12 @@ def run_one(prop: str, seed: int, tier: str, cap: int) -> dict:
         out = res.brief()
         out["nontrivial"] = bool(m.nontrivial(out))
         out["sample"] = {"seed": seed, "spec": cfg.get("spec"), "ops": [_short(o) for o in cfg.get("ops", [])][:30]}
+        if not cfg.get("ops"):     # C12: the history is a fixed protocol parameterised by the configuration
+            out["sample"] = {"seed": seed, "spec": cfg.get("spec"),
+                             "configuration": {k: cfg.get(k) for k in ("deferred", "params", "rot_params", "chunks", "sched",
+                                                                      "handles", "handle_timing", "fault_compute", "s1", "compute_twice")},
+                             "protocol": [l for l in res.log if l.startswith("op ")][:20],
+                             "interleaving_digests": res.coverage.get("interleavings", [])[:4]}
         if res.violations:
             out["config"] = cfg
     except RunTimeout:
